@@ -65,6 +65,8 @@
 #include "stir/ProjDataInMemory.h"
 #include "stir/ProjDataInterfile.h"
 #include "stir/ProjDataInfoCylindricalNoArcCorr.h"
+#include "stir/ProjDataInfoBlocksOnCylindricalNoArcCorr.h"
+#include "stir/DetectionPosition.h"
 #include "stir/ExamInfo.h"
 #include "stir/SegmentBySinogram.h"
 #include "stir/Bin.h"
@@ -90,6 +92,12 @@ const double TOL_FRESH = 1e-5; // history object vs fresh object (same arithmeti
 const double TOL_SYM = 1e-5;   // out[bin(A,B)] vs out[bin(B,A)]
 const double TOL_LIN = 1e-4;   // linearity
 const double TOL_CACHE = 1e-5; // cache on vs off
+// fifth session (blocks geometries, per-pair clauses)
+const double TOL_SYM_PAIR = 1e-6;  // |est(A,B) - est(B,A)| relative to max(|est(A,B)|, |est(B,A)|) of THAT pair (observed <= 1e-12)
+const double TOL_EFF_SYM = 1e-6;   // detection_efficiency_no_scatter(A,B) vs (B,A), relative (observed 0)
+const double TOL_EFF_REF = 5e-5;   // detection_efficiency_no_scatter(A,B) vs the harness' own formula, relative (float cosines; observed <= 1.4e-6 over 5 seeds)
+const double TOL_COORD = 1e-4;     // detection point of the simulation vs crystal position of the template, relative to the ring radius
+const double MIN_FRONT_COS = 0.02; // generator: every LOR of a blocks template enters both crystals from the front (see front_entry_ok)
 
 //! the exclusions of the known findings are on by default;
 //! VERIF_NO_EXCLUDE=1 (or "all", or a list containing the id) switches them off
@@ -146,22 +154,133 @@ struct Sim : SingleScatterSimulation
   using SingleScatterSimulation::actual_scatter_estimate;
   using SingleScatterSimulation::find_detectors;
   using SingleScatterSimulation::scatter_estimate;
-  //! number of scatter points (after set_up) that lie outside the detector ring: sqrt(x^2+y^2) > effective ring radius.
+  using SingleScatterSimulation::detection_efficiency_no_scatter;
+  //! the detection point the simulation stores for a detector number reported by find_detectors
+  const CartesianCoordinate3D<float>& det_point(unsigned k) const { return this->detection_points_vector.at(k); }
+  //! number of scatter points (after set_up) that lie outside the detector ring: sqrt(x^2+y^2) > inner extent of the detectors.
   //! For such a point p and a detector d "behind" it (p.d > |d|^2) the factor cos_incident_angle of
-  //! simulate_for_one_scatter_point, the cosine between (p - d) and the direction from d to the ring centre, is
-  //! negative; for points inside the ring it is positive for every detector (p.d <= |p||d| < |d|^2).
+  //! simulate_for_one_scatter_point, the cosine between (p - d) and the direction from d to the ring centre (0,-d.y,-d.x), is
+  //! negative: its sign is that of |d_xy|^2 - p_xy.d_xy >= |d_xy| (|d_xy| - |p_xy|), so it is >= 0 for EVERY detector exactly
+  //! when |p_xy| <= min over the detectors of |d_xy| (see inner_detector_radius()).
   long scatter_points_outside_ring() const
   {
-    const double R = this->get_template_proj_data_info_sptr()->get_scanner_ptr()->get_effective_ring_radius();
+    const double R = inner_detector_radius(*this->get_template_proj_data_info_sptr());
     long n = 0;
     for (const auto& sp : this->scatt_points_vector)
       if (std::hypot(double(sp.coord.x()), double(sp.coord.y())) > R)
         ++n;
     return n;
   }
+  //! the geometry's own inner extent: the smallest transaxial distance of a crystal from the scanner axis.
+  //! Cylindrical: the effective ring radius (every detector is at that distance).  BlocksOnCylindrical: the crystals of a
+  //! bucket lie on a plane whose CENTRE is at the effective ring radius (GeometryBlocksOnCylindrical::build_crystal_maps:
+  //! start_y = -get_effective_ring_radius(), crystals at transaxial offsets t symmetric about 0, then a rotation), i.e. at
+  //! sqrt(R_eff^2 + t^2) >= R_eff: the minimum over the crystal map is taken (R_eff for an odd number of crystals per
+  //! bucket, sqrt(R_eff^2 + (pitch/2)^2) for an even number).  Taken from the scanner's detector map, not from the simulation.
+  static double inner_detector_radius(const ProjDataInfo& pdi)
+  {
+    const Scanner& sc = *pdi.get_scanner_ptr();
+    if (!dynamic_cast<const ProjDataInfoBlocksOnCylindricalNoArcCorr*>(&pdi))
+      return sc.get_effective_ring_radius();
+    double r = 1e30;
+    for (int t = 0; t < sc.get_num_detectors_per_ring(); ++t)
+      {
+        const CartesianCoordinate3D<float> d = sc.get_coordinate_for_det_pos(DetectionPosition<>(unsigned(t), 0U, 0U));
+        r = std::min(r, std::hypot(double(d.x()), double(d.y())));
+      }
+    return r;
+  }
 };
 
+//! positions of the two crystals of a bin, from the template itself and NOT through the simulation (class documentation of
+//! ScatterSimulation: "detector coordinates are derived from ProjDataInfo, but areas and orientations are determined by using
+//! a cylindrical scanner").  Blocks: detector pair of the bin (C01) -> crystal map of the scanner (C12); z origin arbitrary.
+bool
+crystal_positions(const ProjDataInfo& pdi, const Bin& bin, CartesianCoordinate3D<float>& a, CartesianCoordinate3D<float>& b)
+{
+  if (const auto* p = dynamic_cast<const ProjDataInfoBlocksOnCylindricalNoArcCorr*>(&pdi))
+    {
+      int d1 = 0, r1 = 0, d2 = 0, r2 = 0;
+      p->get_det_pair_for_bin(d1, r1, d2, r2, bin);
+      a = pdi.get_scanner_ptr()->get_coordinate_for_det_pos(DetectionPosition<>(unsigned(d1), unsigned(r1), 0U));
+      b = pdi.get_scanner_ptr()->get_coordinate_for_det_pos(DetectionPosition<>(unsigned(d2), unsigned(r2), 0U));
+      return true;
+    }
+  if (const auto* p = dynamic_cast<const ProjDataInfoCylindricalNoArcCorr*>(&pdi))
+    {
+      p->find_cartesian_coordinates_of_detection(a, b, bin);
+      return true;
+    }
+  return false;
+}
+
+//! cosine of the angle between the line from crystal `from` to `to` and the direction from `from` to the scanner axis
+//! (the orientation model of the class: radial normals, "orientations are determined by using a cylindrical scanner")
+double
+radial_cos(const CartesianCoordinate3D<float>& from, const CartesianCoordinate3D<float>& to)
+{
+  const double vx = double(to.x()) - from.x(), vy = double(to.y()) - from.y(), vz = double(to.z()) - from.z();
+  const double nx = -double(from.x()), ny = -double(from.y());
+  return (vx * nx + vy * ny) / std::sqrt((vx * vx + vy * vy + vz * vz) * (nx * nx + ny * ny));
+}
+
+//! Domain of the detection model (generator side, blocks templates only): the unscattered LOR of every bin enters both
+//! crystals from the front, i.e. the cosine of its incidence angle against the radial normal is positive at both ends.
+//! detection_efficiency_no_scatter divides by cos_incident_angle_A * cos_incident_angle_B: for two crystals of ONE flat bucket
+//! (the LOR runs inside the detector plane) one cosine is 0 or negative -> the normalisation is infinite or negative.  On a
+//! cylinder the product is > 0 for every pair of distinct detectors.  Such LORs do not cross the field of view and are not in a
+//! scatter template; the generator limits the tangential size of a blocks template accordingly (and check_output counts and
+//! skips the sign clause if one is met anyway).
+bool
+front_entry_ok(const ProjDataInfo& pdi, double min_cos)
+{
+  CartesianCoordinate3D<float> a, b;
+  for (int seg = pdi.get_min_segment_num(); seg <= pdi.get_max_segment_num(); ++seg)
+    for (int ax = pdi.get_min_axial_pos_num(seg); ax <= pdi.get_max_axial_pos_num(seg); ++ax)
+      for (int v = pdi.get_min_view_num(); v <= pdi.get_max_view_num(); ++v)
+        for (int t = pdi.get_min_tangential_pos_num(); t <= pdi.get_max_tangential_pos_num(); ++t)
+          {
+            if (!crystal_positions(pdi, Bin(seg, v, ax, t), a, b))
+              return false;
+            if (!(radial_cos(a, b) >= min_cos) || !(radial_cos(b, a) >= min_cos))
+              return false;
+          }
+  return true;
+}
+
 typedef VoxelsOnCartesianGrid<float> Image;
+
+//! BlocksOnCylindrical templates: VoxelsOnCartesianGrid(ProjDataInfo) (used by set_up's automatic scatter-point image,
+//! downsample_density_image_for_scatter_points with a negative zoom and downsample_images_to_scanner_size) asks get_s of the
+//! outermost bins, which for blocks data goes through ProjDataInfoGeneric::get_LOR -> find_LOR_intersections_with_cylinder;
+//! there psi = from_min_pi_plus_pi_to_0_2pi(float(atan2(x,-y))) is -eps + 2 pi, which rounds to 2 pi in float, and the
+//! debug-only self check of PointOnCylinder (assert(_psi < 2 pi), LORCoordinates.h:87) fires.  The value is a valid angle
+//! (only sin/cos of it are used), builds with NDEBUG are unaffected and no clause of C16 depends on it (C12's subject):
+//! as for the single-ring self check (set_up_obj), exactly these geometry calls run with STIR's internal assertions off for
+//! blocks templates and their results are checked by the normal oracles (replays/C16/release_behaviour_blocks_psi_2pi.json).
+struct GeomAssertsOff
+{
+  bool active;
+  explicit GeomAssertsOff(bool blocks)
+      : active(blocks)
+  {
+    if (active)
+      {
+        stir_verif::asserts_on = false;
+        stats().count("geometry calls on a blocks template (internal assertions off)");
+      }
+  }
+  ~GeomAssertsOff()
+  {
+    if (active)
+      stir_verif::asserts_on = true;
+  }
+};
+bool
+is_blocks(const ProjDataInfo* p)
+{
+  return p && dynamic_cast<const ProjDataInfoBlocksOnCylindricalNoArcCorr*>(p) != nullptr;
+}
 typedef std::tuple<int, int, int, int> BinKey; // seg, ax, view, tang
 typedef std::map<BinKey, float> Out;
 
@@ -223,6 +342,8 @@ struct Tmpl
   shared_ptr<ProjDataInfo> pdi; // what is passed to set_template_proj_data_info
   bool down = false;
   int new_rings = 0, new_dets = 0;
+  bool blocks = false; // BlocksOnCylindrical scanner
+  int big_dets = 0;    // detectors per ring of the scanner as given
 };
 
 Tmpl
@@ -232,8 +353,13 @@ make_tmpl(const json& j)
   shared_ptr<Scanner> sc = vg::make_scanner(j["scanner"]);
   sc->set_energy_resolution(j["eres"].get<float>());
   sc->set_reference_energy(j["eref"].get<float>());
+  // the setters invalidate the crystal map of a BlocksOnCylindrical scanner ("Scanner: you forgot to call set_up()")
+  if (sc->get_scanner_geometry() == "BlocksOnCylindrical")
+    sc->set_up();
   t.pdi = vg::make_pdi(sc, j["pdi"]);
   t.down = j["kind"].get<std::string>() == "down";
+  t.blocks = sc->get_scanner_geometry() == "BlocksOnCylindrical";
+  t.big_dets = sc->get_num_detectors_per_ring();
   if (t.down)
     {
       t.new_rings = j["new_rings"];
@@ -251,14 +377,23 @@ tmpl_rings(const json& t)
 
 //! set_template_proj_data_info(ProjDataInfo) (+ downsample_scanner).  via_settings: the numbers of rings/detectors are
 //! given by set_num_downsample_scanner_rings/dets and downsample_scanner() is called with its defaults
-//! (downsample_scanner: "if (downsample_scanner_rings > 1) new_num_rings = downsample_scanner_rings", so only for >= 2 rings)
+//! (downsample_scanner: "if (downsample_scanner_rings > 1) new_num_rings = downsample_scanner_rings", so only for >= 2 rings).
+//! BlocksOnCylindrical: downsample_scanner() ignores set_num_downsample_scanner_dets ("by default, do not downsample the
+//! detectors per ring for BlocksOnCylindrical": new_num_dets = get_num_detectors_per_ring()), so the defaults route is the
+//! same request only when the template asks for the number of detectors the scanner already has.
+bool
+defaults_route_possible(const Tmpl& t)
+{
+  return t.down && t.new_rings >= 2 && (!t.blocks || t.new_dets == t.big_dets);
+}
+
 void
 apply_down(SingleScatterSimulation& s, const Tmpl& t, bool via_settings)
 {
   if (!t.down)
     return;
   Succeeded ok = Succeeded::yes;
-  if (via_settings && t.new_rings >= 2)
+  if (via_settings && defaults_route_possible(t))
     {
       s.set_num_downsample_scanner_rings(t.new_rings);
       s.set_num_downsample_scanner_dets(t.new_dets);
@@ -356,7 +491,10 @@ make_sp(const Pools& P, const SpRecipe& r)
   if (r.tmpl >= 0)
     apply_tmpl(h, P.tmpls[r.tmpl]);
   h.set_density_image_sptr(P.atts[r.att]);
-  h.downsample_density_image_for_scatter_points(r.zxy, r.zz, r.sxy, r.sz);
+  {
+    GeomAssertsOff off(r.tmpl >= 0 && P.tmpls[r.tmpl].blocks);
+    h.downsample_density_image_for_scatter_points(r.zxy, r.zz, r.sxy, r.sz);
+  }
   // deep copy: the helper object dies
   shared_ptr<const DiscretisedDensity<3, float>> img(h.get_density_image_for_scatter_points_sptr()->clone());
   return img;
@@ -850,7 +988,10 @@ set_up_obj(SingleScatterSimulation& s)
 {
   const bool single_ring = s.has_template_proj_data_info() && s.get_template_proj_data_info_sptr()->get_scanner_ptr()->get_num_rings() == 1;
   if (!single_ring)
-    return s.set_up();
+    {
+      GeomAssertsOff off(s.has_template_proj_data_info() && is_blocks(s.get_template_proj_data_info_sptr().get()));
+      return s.set_up();
+    }
   stats().count("set_up with a single-ring template (internal assertions off)");
   struct AssertsOff
   {
@@ -906,6 +1047,10 @@ compare(const Out& got, const Out& ref, double scale, double tol, const std::str
 Result
 check_output(Sim& s, const Out& out, bool nonneg_activity)
 {
+  const ProjDataInfo& pdi = *s.get_template_proj_data_info_sptr();
+  const bool blocks = dynamic_cast<const ProjDataInfoBlocksOnCylindricalNoArcCorr*>(&pdi) != nullptr;
+  if (blocks)
+    stats().count("outputs checked for a BlocksOnCylindrical template");
   // Precondition of "never negative" (scope: inputs a real caller passes): the attenuating object, hence every scatter
   // point, is inside the detector ring.  The pool images are generated inside the smallest ring, but the scatter-point
   // grid STIR derives from them can be coarser than the ring itself (e.g. zoom_xy 0.3 on the 7x7 image that
@@ -914,41 +1059,114 @@ check_output(Sim& s, const Out& out, bool nonneg_activity)
   // the object.  The incidence-angle cosine of a detector behind such a point is negative (replays/C16/
   // precondition_scatter_point_outside_ring.json).  These outputs are excluded from the non-negativity clause only and
   // counted; every other clause (fresh object, exchange, linearity, zero, cache) is still checked on them.
+  // "Inside the ring" is decided with the geometry's own inner extent (Sim::inner_detector_radius).
   if (nonneg_activity && s.scatter_points_outside_ring() > 0)
     {
       nonneg_activity = false;
       stats().count("excluded from 'never negative': outputs of a simulation with a scatter point outside the detector ring");
     }
+  // ---- detector pair of every bin; geometry of the pair from the template (not from the simulation) ----
+  struct Pair
+  {
+    BinKey k;
+    unsigned A = 0, B = 0;
+    CartesianCoordinate3D<float> a, b;
+    double cosA = 0, cosB = 0;
+  };
+  std::vector<Pair> prs;
+  prs.reserve(out.size());
+  std::map<std::pair<unsigned, unsigned>, BinKey> seen; // unordered detector pair -> bin: one bin per pair
+  bool behind = false;
   for (auto& kv : out)
     {
-      VF_CHECK(std::isfinite(kv.second), "output not finite at bin(seg ", std::get<0>(kv.first), ", ax ", std::get<1>(kv.first), ", view ",
-               std::get<2>(kv.first), ", tang ", std::get<3>(kv.first), "): ", kv.second);
+      Pair p;
+      p.k = kv.first;
+      const BinKey& k = p.k;
+      const Bin bin(std::get<0>(k), std::get<2>(k), std::get<1>(k), std::get<3>(k));
+      s.find_detectors(p.A, p.B, bin);
+      VF_CHECK(p.A != p.B, "bin(seg ", std::get<0>(k), ", ax ", std::get<1>(k), ", view ", std::get<2>(k), ", tang ", std::get<3>(k),
+               ") connects a detector with itself");
+      VF_CHECK(seen.insert(std::make_pair(std::make_pair(std::min(p.A, p.B), std::max(p.A, p.B)), k)).second,
+               "two bins of a span-1 template share detector pair ", p.A, ",", p.B);
+      VF_CHECK(crystal_positions(pdi, bin, p.a, p.b), "harness: template is neither cylindrical nor blocks-on-cylindrical");
+      p.cosA = radial_cos(p.a, p.b);
+      p.cosB = radial_cos(p.b, p.a);
+      if (!(p.cosA > 0) || !(p.cosB > 0))
+        behind = true;
+      prs.push_back(p);
+    }
+  // (the generator keeps blocks templates inside this domain, see front_entry_ok(); on a cylinder it always holds)
+  if (behind && no_exclude("F8"))
+    behind = false; // VERIF_NO_EXCLUDE=F8: assert finite / non-negative values for these outputs as well
+  if (behind)
+    {
+      nonneg_activity = false;
+      stats().count("excluded from 'never negative'/'finite': outputs with an LOR that enters a crystal from behind (blocks)");
+    }
+  for (auto& kv : out)
+    {
+      if (!behind)
+        VF_CHECK(std::isfinite(kv.second), "output not finite at bin(seg ", std::get<0>(kv.first), ", ax ", std::get<1>(kv.first), ", view ",
+                 std::get<2>(kv.first), ", tang ", std::get<3>(kv.first), "): ", kv.second);
       if (nonneg_activity)
         VF_CHECK(kv.second >= 0.F, "negative output ", kv.second, " at bin(seg ", std::get<0>(kv.first), ", ax ", std::get<1>(kv.first), ", view ",
                  std::get<2>(kv.first), ", tang ", std::get<3>(kv.first), ")");
     }
+  if (behind)
+    return Result::pass(); // values may be inf/NaN: nothing below is meaningful
   const double scale = max_abs(out);
-  long pairs = 0, oblique = 0;
-  double worst = 0, worst_direct = 0;
-  std::map<std::pair<unsigned, unsigned>, BinKey> seen; // unordered detector pair -> bin: one bin per pair
-  for (auto& kv : out)
+  const double Rscale = pdi.get_scanner_ptr()->get_effective_ring_radius();
+  const double eff511 = s.detection_efficiency(511.F) > 0 ? double(s.detection_efficiency(511.F)) : 1.; // "Will normalise to 1"
+  long pairs = 0, oblique = 0, unequal_cos = 0;
+  double worst = 0, worst_direct = 0, worst_pair = 0, worst_eff_sym = 0, worst_eff_ref = 0, worst_coord = 0;
+  for (const Pair& p : prs)
     {
-      const BinKey& k = kv.first;
-      const Bin bin(std::get<0>(k), std::get<2>(k), std::get<1>(k), std::get<3>(k));
-      unsigned A = 0, B = 0;
-      s.find_detectors(A, B, bin);
-      VF_CHECK(A != B, "bin(seg ", std::get<0>(k), ", ax ", std::get<1>(k), ", view ", std::get<2>(k), ", tang ", std::get<3>(k),
-               ") connects a detector with itself");
-      VF_CHECK(seen.insert(std::make_pair(std::make_pair(std::min(A, B), std::max(A, B)), k)).second, "two bins of a span-1 template share detector pair ",
-               A, ",", B);
+      const BinKey& k = p.k;
+      const float stored = out.at(k);
+      const unsigned A = p.A, B = p.B;
+      // ---- (i) the detection points of the simulation are the crystals of the bin (z up to the common axial shift) ----
+      {
+        const CartesianCoordinate3D<float>& sa = s.det_point(A);
+        const CartesianCoordinate3D<float>& sb = s.det_point(B);
+        const double dc = std::max({ std::fabs(double(sa.x()) - p.a.x()), std::fabs(double(sa.y()) - p.a.y()), std::fabs(double(sb.x()) - p.b.x()),
+                                     std::fabs(double(sb.y()) - p.b.y()),
+                                     std::fabs((double(sa.z()) - sb.z()) - (double(p.a.z()) - p.b.z())) });
+        worst_coord = std::max(worst_coord, dc / Rscale);
+        VF_CHECK(dc <= TOL_COORD * Rscale, "bin(seg ", std::get<0>(k), ", ax ", std::get<1>(k), ", view ", std::get<2>(k), ", tang ", std::get<3>(k),
+                 "): the simulation places its detectors at (z,y,x) (", sa.z(), ",", sa.y(), ",", sa.x(), ") / (", sb.z(), ",", sb.y(), ",", sb.x(),
+                 ") but the crystals of the bin's detector pair are at (", p.a.z(), ",", p.a.y(), ",", p.a.x(), ") / (", p.b.z(), ",", p.b.y(), ",",
+                 p.b.x(), ") (z up to a common shift)");
+      }
+      // ---- (ii) normalisation of the pair: symmetric, and equal to the model eff511 cosA cosB / (0.75/(2 pi) rAB^2) ----
+      {
+        const double eab = s.detection_efficiency_no_scatter(A, B), eba = s.detection_efficiency_no_scatter(B, A);
+        const double m = std::max(std::fabs(eab), std::fabs(eba));
+        const double rel = m > 0 ? std::fabs(eab - eba) / m : 0;
+        worst_eff_sym = std::max(worst_eff_sym, rel);
+        if (!(rel <= TOL_EFF_SYM))
+          return Result::fail(cat("exchange symmetry of the normalisation: bin(seg ", std::get<0>(k), ", ax ", std::get<1>(k), ", view ", std::get<2>(k),
+                                  ", tang ", std::get<3>(k), ") detectors A=", A, " B=", B, ": detection_efficiency_no_scatter(A,B) = ", eab,
+                                  " but (B,A) = ", eba, " (cos of incidence at A ", p.cosA, ", at B ", p.cosB, ")"));
+        const double dx = double(p.a.x()) - p.b.x(), dy = double(p.a.y()) - p.b.y(), dz = double(p.a.z()) - p.b.z();
+        const double ref = eff511 * p.cosA * p.cosB * 2. * 3.14159265358979323846 / (0.75 * (dx * dx + dy * dy + dz * dz));
+        const double rr = std::fabs(eab - ref) / std::fabs(ref);
+        worst_eff_ref = std::max(worst_eff_ref, rr);
+        if (!(rr <= TOL_EFF_REF))
+          return Result::fail(cat("normalisation of the pair: bin(seg ", std::get<0>(k), ", ax ", std::get<1>(k), ", view ", std::get<2>(k), ", tang ",
+                                  std::get<3>(k), ") detectors A=", A, " B=", B, ": detection_efficiency_no_scatter(A,B) = ", eab,
+                                  " but efficiency(511) cosA cosB / (0.75/(2 pi) |A-B|^2) = ", ref, " (cosA ", p.cosA, ", cosB ", p.cosB, ")"));
+        if (std::fabs(p.cosA - p.cosB) > 1e-3 * std::max(p.cosA, p.cosB))
+          ++unequal_cos;
+      }
+      // ---- (iii) stored value == estimate(A,B) == estimate(B,A) ----
       double ab = 0, ba = 0;
       s.actual_scatter_estimate(ab, A, B);
       s.actual_scatter_estimate(ba, B, A);
       ++pairs;
       if (std::get<0>(k) != 0)
         ++oblique;
-      worst_direct = std::max(worst_direct, std::fabs(double(float(ab)) - double(kv.second)));
-      VF_CHECK(std::fabs(double(float(ab)) - double(kv.second)) <= 1e-6 * scale, "process_data stored ", kv.second, " for bin(seg ", std::get<0>(k), ", ax ",
+      worst_direct = std::max(worst_direct, std::fabs(double(float(ab)) - double(stored)));
+      VF_CHECK(std::fabs(double(float(ab)) - double(stored)) <= 1e-6 * scale, "process_data stored ", stored, " for bin(seg ", std::get<0>(k), ", ax ",
                std::get<1>(k), ", view ", std::get<2>(k), ", tang ", std::get<3>(k), ") but the estimate for its detector pair is ", ab);
       const double d = std::fabs(ab - ba);
       worst = std::max(worst, d);
@@ -957,12 +1175,30 @@ check_output(Sim& s, const Out& out, bool nonneg_activity)
       if (!(d <= TOL_SYM * scale))
         return Result::fail(cat("exchange symmetry: bin(seg ", std::get<0>(k), ", ax ", std::get<1>(k), ", view ", std::get<2>(k), ", tang ", std::get<3>(k),
                                 ") detectors A=", A, " B=", B, ": estimate(A,B) = ", ab, " but estimate(B,A) = ", ba, " (max |out| ", scale, ")"));
+      // per pair ("the estimate FOR A DETECTOR PAIR is unchanged"): relative to the pair's own value; pairs whose estimate is
+      // below 1e-6 of the maximum are left to the absolute clause above (sums with cancelling terms of outside-ring points)
+      const double pm = std::max(std::fabs(ab), std::fabs(ba));
+      if (pm > 1e-6 * scale)
+        {
+          worst_pair = std::max(worst_pair, d / pm);
+          if (!(d <= TOL_SYM_PAIR * pm))
+            return Result::fail(cat("exchange symmetry (relative to the pair): bin(seg ", std::get<0>(k), ", ax ", std::get<1>(k), ", view ",
+                                    std::get<2>(k), ", tang ", std::get<3>(k), ") detectors A=", A, " B=", B, ": estimate(A,B) = ", ab,
+                                    " but estimate(B,A) = ", ba, " (relative difference ", d / pm, ")"));
+        }
     }
   stats().count("detector pairs compared", pairs);
   stats().count("detector pairs in different rings", oblique);
+  stats().count("detector pairs with different incidence cosines at the two ends (> 1e-3 relative)", unequal_cos);
+  if (blocks)
+    stats().count("blocks: detector pairs compared", pairs);
+  stats().maxi("max rel err detection point vs crystal position (of ring radius)", worst_coord);
+  stats().maxi("max rel err normalisation (A,B) vs (B,A)", worst_eff_sym);
+  stats().maxi("max rel err normalisation vs own formula", worst_eff_ref);
   if (scale > 0)
     {
       stats().maxi("max rel err exchange symmetry", worst / scale);
+      stats().maxi("max rel err exchange symmetry relative to the pair", worst_pair);
       stats().maxi("max rel err process_data vs per-pair estimate", worst_direct / scale);
     }
   return Result::pass();
@@ -974,6 +1210,7 @@ check_output(Sim& s, const Out& out, bool nonneg_activity)
 shared_ptr<const Image>
 zoom_to_template(const Image& in, const ProjDataInfo& pdi, bool activity)
 {
+  GeomAssertsOff off(is_blocks(&pdi));
   Image tmpl_image(pdi);
   shared_ptr<Image> out(tmpl_image.get_empty_copy());
   zoom_image(*out, in, ZoomOptions(activity ? ZoomOptions::preserve_projections : ZoomOptions::preserve_values));
@@ -1321,7 +1558,10 @@ check(const json& c)
           }
           M.sp_set = true;
           M.zoom = z; // the function stores its arguments (it calls set_image_downsample_factors)
-          H.downsample_density_image_for_scatter_points(z.zxy, z.zz, z.sxy, z.sz);
+          {
+            GeomAssertsOff off(H.has_template_proj_data_info() && is_blocks(H.get_template_proj_data_info_sptr().get()));
+            H.downsample_density_image_for_scatter_points(z.zxy, z.zz, z.sxy, z.sz);
+          }
           changed();
           stats().count("downsample_density_image_for_scatter_points on the history object");
           break;
@@ -1391,7 +1631,10 @@ check(const json& c)
                        "harness: planes of the template image");
               // an explicit scatter-point image stays (the function does not touch it)
             }
-          VF_CHECK(H.downsample_images_to_scanner_size() == Succeeded::yes, "event ", i, ": downsample_images_to_scanner_size returned Succeeded::no");
+          {
+            GeomAssertsOff off(is_blocks(M.eff_pdi.get()));
+            VF_CHECK(H.downsample_images_to_scanner_size() == Succeeded::yes, "event ", i, ": downsample_images_to_scanner_size returned Succeeded::no");
+          }
           if (M.act || M.att)
             changed();
           stats().count("downsample_images_to_scanner_size on the history object");
@@ -1572,7 +1815,7 @@ check(const json& c)
     // ---- the scanner is down-sampled by set_up itself (set_downsample_scanner_bool / keywords); one set_up only:
     //      "ScatterSimulation: set_up() called twice. This is currently not supported."
     //      "if (downsample_scanner_rings > 1) new_num_rings = downsample_scanner_rings": only for >= 2 rings ----
-    if (M.t.down && M.t.new_rings >= 2)
+    if (defaults_route_possible(M.t))
       {
         shared_ptr<Sim> J;
         const bool by_keywords = (lin["seed"].get<uint64_t>() & 1) != 0;
@@ -1742,6 +1985,161 @@ small_scanner(Src& s, int ndet, int rings, double bin, double ring_spacing)
 }
 
 
+//! fixed_cases() only: 1 = the first template is a direct BlocksOnCylindrical one with >= 3 crystals per bucket, 0 = no blocks templates
+int g_fixed_geometry = -1;
+
+//! BlocksOnCylindrical scanner: `buckets` flat buckets (a regular polygon) of `per_bucket` crystals of pitch `bin` each.
+//! Restrictions taken from Scanner::check_consistency (called by GeometryBlocksOnCylindrical: "scanner configuration not
+//! accepted"): transaxial crystals = crystals_per_block x blocks_per_bucket x buckets; ONE axial bucket ("num_axial_buckets
+//! ... greater than 1. This is not supported yet"), so rings = axial crystals per block x axial blocks per bucket; crystal
+//! spacing x crystals per block <= block spacing; block spacing x blocks per bucket >= 2 x inner radius x tan(pi/2/buckets).
+//! Intrinsic tilt 0 as in vg::gen_scanner.
+json
+blocks_scanner(Src& s, int buckets, int per_bucket, int rings, double bin, double ring_spacing)
+{
+  json j;
+  j["type"] = -1;
+  j["ndet"] = buckets * per_bucket;
+  j["rings"] = rings;
+  const int a = s.pick(vg::divisors(per_bucket));
+  const int b = per_bucket / a;
+  j["tr_cryst_per_block"] = a;
+  j["tr_blocks_per_bucket"] = b;
+  const int d = s.pick(vg::divisors(rings));
+  j["ax_cryst_per_block"] = d;
+  j["ax_blocks_per_bucket"] = rings / d;
+  j["singles_units"] = s.coin() ? 1 : 0;
+  j["max_tang"] = buckets * per_bucket - 1;
+  j["geometry"] = "BlocksOnCylindrical";
+  j["ax_crystal_spacing"] = ring_spacing;
+  j["tr_crystal_spacing"] = bin;
+  j["block_gap_ax"] = s.coin() ? 0. : s.nice_real(0., 0.3) * ring_spacing;
+  j["block_gap_tr"] = s.coin() ? 0. : s.nice_real(0., 0.3) * bin;
+  // closed polygon: side = 2 R tan(pi/buckets); up to 1.3 times further out (gaps between the buckets; the bound of
+  // check_consistency is side >= 2 R tan(pi/(2 buckets)), i.e. R up to >= 2 times the closed radius for >= 3 buckets)
+  const double side = (bin * a + j["block_gap_tr"].get<double>()) * b;
+  const double closed = side / (2. * std::tan(3.14159265358979323846 / buckets));
+  j["radius"] = std::max(1., std::floor(0.999 * closed * s.pick(std::vector<double>{ 1., 1., 1.3 }) * 4.) / 4.);
+  j["doi"] = s.coin() ? 0. : s.nice_real(0., 5.);
+  j["ring_spacing"] = ring_spacing;
+  j["bin_size"] = bin * s.pick(std::vector<double>{ 1., 1., 0.8, 1.25 });
+  j["tilt"] = 0.;
+  j["tof_poss"] = 0;
+  return j;
+}
+
+//! generator side: the template is accepted by STIR (construction, set_template_proj_data_info, downsample_scanner: the
+//! down-sampled blocks scanner must pass Scanner::check_consistency again) and every LOR of the template the simulation
+//! works with enters both crystals from the front (front_entry_ok)
+bool
+blocks_template_usable(const json& t)
+{
+  try
+    {
+      vg::quiet();
+      const Tmpl T = make_tmpl(t);
+      if (T.pdi->get_scanner_ptr()->check_consistency() != Succeeded::yes)
+        return false;
+      SingleScatterSimulation h;
+      apply_tmpl(h, T);
+      const ProjDataInfo& eff = *h.get_template_proj_data_info_sptr();
+      const bool eff_blocks = is_blocks(&eff);
+      const bool ok = eff_blocks && (no_exclude("F8") || front_entry_ok(eff, MIN_FRONT_COS));
+      if (std::getenv("VERIF_C16_DEBUG"))
+        std::cerr << "usable? blocks " << eff_blocks << " ok " << ok << " tang " << eff.get_num_tangential_poss() << " " << t["scanner"].dump() << "\n";
+      return ok;
+    }
+  catch (const std::runtime_error& e)
+    {
+      if (std::getenv("VERIF_C16_DEBUG"))
+        std::cerr << "usable? exception " << e.what() << "\n";
+      return false;
+    }
+}
+
+//! (buckets, crystals per bucket) of the small blocks scanners; >= 3 crystals per bucket: crystals at DIFFERENT distances
+//! from the axis, so that the incidence cosines at the two ends of an LOR differ (with 1 or 2 crystals per bucket all
+//! crystals lie on one circle and every chord meets both ends at the same angle, as on a cylinder)
+const int BLOCK_SHAPES[][2] = { { 4, 3 }, { 4, 4 }, { 3, 4 }, { 4, 3 }, { 6, 3 }, { 3, 6 }, { 5, 4 }, { 4, 5 }, { 4, 2 }, { 8, 1 }, { 6, 2 } };
+
+//! a BlocksOnCylindrical template (direct or down-sampled by the simulation); false: none found, make a cylindrical one
+bool
+gen_blocks_template(Src& s, json& t, int rings, double bin, double axial_len)
+{
+  const int shape = int(s.range(0, g_fixed_geometry == 1 ? 7 : 10));
+  const int buckets = BLOCK_SHAPES[shape][0], per_bucket = BLOCK_SHAPES[shape][1];
+  const int ndet = buckets * per_bucket;
+  // downsample_scanner (blocks branch): new_ring_spacing = scanner_length / (new_num_rings - 1) and
+  // new_det_spacing = transaxial_bucket_width / (new_transaxial_dets_per_bucket - 1): >= 2 rings and >= 2 crystals per bucket
+  const bool down = rings >= 2 && per_bucket >= 2 && s.chance(1, 3) && g_fixed_geometry != 1;
+  t = json::object();
+  t["eres"] = 0.15; // (overwritten by gen(); make_tmpl needs them)
+  t["eref"] = 511.;
+  if (!down)
+    {
+      t["kind"] = "direct";
+      t["scanner"] = blocks_scanner(s, buckets, per_bucket, rings, bin, axial_len / rings);
+      const int max_delta = s.chance(3, 4) ? rings - 1 : int(s.range(0, rings - 1));
+      // largest tangential size whose LORs all enter from the front, then any size up to it
+      int tang_ok = 0;
+      for (int tang = ndet - 1; tang >= 2 && tang_ok == 0; --tang)
+        {
+          t["pdi"] = { { "span", 1 }, { "max_delta", 0 }, { "views", ndet / 2 }, { "tang", tang },
+                       { "arccorr", false }, { "tof_mash", 0 }, { "trim", json::object() } };
+          if (blocks_template_usable(t))
+            tang_ok = tang;
+        }
+      if (tang_ok == 0)
+        return false;
+      t["pdi"]["tang"] = s.chance(1, 2) ? tang_ok : int(s.range(2, tang_ok));
+      t["pdi"]["max_delta"] = max_delta;
+      return true;
+    }
+  // a larger blocks scanner with the same buckets, reduced by downsample_scanner(rings, ndet); span 1 only: blocks data with
+  // axial compression are outside what the LOR code supports (C01-H1 / C04: "does not work for data with axial compression")
+  t["kind"] = "down";
+  const int big_per_bucket = per_bucket * int(s.range(1, 2));
+  const int big_rings = rings * int(s.range(1, 2));
+  const int big_ndet = buckets * big_per_bucket;
+  t["scanner"] = blocks_scanner(s, buckets, big_per_bucket, big_rings, bin * per_bucket / big_per_bucket, axial_len / big_rings);
+  t["new_rings"] = rings;
+  t["new_dets"] = ndet;
+  const int max_delta = s.chance(1, 4) ? 0 : int(s.range(0, big_rings - 1));
+  for (int tang = big_ndet - 1; tang >= 2; --tang)
+    {
+      // downsample_scanner: new max tangential bins = ceil(tang*new_dets/old_dets)+1, must stay <= new_dets-1 (distinct detectors)
+      if (int(std::ceil(double(tang) * ndet / big_ndet)) + 1 > ndet - 1)
+        continue;
+      t["pdi"] = { { "span", 1 }, { "max_delta", 0 }, { "views", big_ndet / 2 }, { "tang", tang },
+                   { "arccorr", false }, { "tof_mash", 0 }, { "trim", json::object() } };
+      if (blocks_template_usable(t))
+        {
+          if (s.coin() && tang > 2)
+            {
+              const int smaller = int(s.range(2, tang)); // fewer bins of the big template give fewer (or as many) after the reduction
+              t["pdi"]["tang"] = smaller;
+            }
+          t["pdi"]["max_delta"] = max_delta;
+          return true;
+        }
+    }
+  return false;
+}
+
+//! (planes-1) x plane spacing of the image downsample_images_to_scanner_size makes for a template (VoxelsOnCartesianGrid of
+//! the template the simulation works with)
+double
+template_image_length(const json& t)
+{
+  vg::quiet();
+  const Tmpl T = make_tmpl(t);
+  SingleScatterSimulation h;
+  apply_tmpl(h, T);
+  GeomAssertsOff off(is_blocks(h.get_template_proj_data_info_sptr().get()));
+  const Image im(*h.get_template_proj_data_info_sptr());
+  return double(im.get_z_size() - 1) * im.get_voxel_size().z();
+}
+
 json
 gen(Src& s, int size)
 {
@@ -1760,8 +2158,17 @@ gen(Src& s, int size)
       const int ndet = 2 * int(s.range(2, 8)); // 4..16
       const int rings = int(s.pick(std::vector<int>{ 1, 2, 2, 2, 3, 3, 3, 3 }));
       const double ring_spacing = axial_len / rings;
-      if (s.chance(2, 3))
+      // fifth session: 2 templates in 5 are BlocksOnCylindrical (set_template_proj_data_info accepts
+      // ProjDataInfoBlocksOnCylindricalNoArcCorr and ProjDataInfoCylindricalNoArcCorr: "Can only handle non-arccorrected data")
+      const bool want_blocks = s.chance(2, 5);
+      if ((g_fixed_geometry < 0 ? want_blocks : (g_fixed_geometry == 1 && k == 0)) && gen_blocks_template(s, t, rings, bin, axial_len))
         {
+          r_min = std::min(r_min, t["scanner"]["radius"].get<double>());
+          stats().count(cat("generator: blocks template (", t["kind"].get<std::string>(), ")"));
+        }
+      else if (s.chance(2, 3))
+        {
+          t = json::object();
           t["kind"] = "direct";
           t["scanner"] = small_scanner(s, ndet, rings, bin, ring_spacing);
           const int tang = int(s.range(2, ndet - 1));
@@ -1773,6 +2180,7 @@ gen(Src& s, int size)
       else
         {
           // a larger scanner, down-sampled by the simulation itself to new_rings x new_dets
+          t = json::object();
           t["kind"] = "down";
           const int big_ndet = ndet * int(s.range(1, 3));
           const int big_rings = rings * int(s.range(1, 3));
@@ -1816,7 +2224,8 @@ gen(Src& s, int size)
   {
     const int r0 = tmpl_rings(templates[0]);
     if (r0 >= 2 && s.coin())
-      L = axial_len * double(r0 - 1) / double(r0);
+      L = templates[0]["scanner"]["geometry"] == "BlocksOnCylindrical" ? template_image_length(templates[0])
+                                                                         : axial_len * double(r0 - 1) / double(r0);
   }
   const int att_nz = int(s.range(3, 9)); // shared by all attenuation images (zoom_z compatibility)
   json acts = json::array(), atts = json::array();
@@ -1960,14 +2369,20 @@ fixed_cases(int)
         for (uint64_t seed = 1 + uint64_t(variant) * 1000;; ++seed)
           {
             PrngSrc s(seed * 7919 + uint64_t(which));
+            g_fixed_geometry = variant;
             c = gen(s, 30);
+            g_fixed_geometry = -1;
             const json& t0 = c["templates"][0];
             const int r0 = tmpl_rings(t0);
             const double axial = t0["scanner"]["ring_spacing"].get<double>() * t0["scanner"]["rings"].get<double>();
             const double L = c["atts"][0]["vz"].get<double>() * (c["atts"][0]["nz"].get<int>() - 1);
-            // two or more rings, images of the axial extent of the template image, default zoom settings
-            if (r0 >= 2 && std::fabs(L - axial * (r0 - 1) / r0) < 1e-3 * L && !c["auto_zoom"].is_object() && c["thr"].get<double>() == 0.01
-                && c["acts"].size() >= 2)
+            // two or more rings, images of the axial extent of the template image, default zoom settings;
+            // fifth session: the second variant of every sequence runs on a BlocksOnCylindrical template with >= 3 crystals per bucket
+            const bool blocks0 = t0["scanner"]["geometry"] == "BlocksOnCylindrical";
+            if (blocks0 != (variant == 1))
+              continue;
+            const double Lt = blocks0 ? template_image_length(t0) : axial * (r0 - 1) / r0;
+            if (r0 >= 2 && std::fabs(L - Lt) < 1e-3 * L && !c["auto_zoom"].is_object() && c["thr"].get<double>() == 0.01 && c["acts"].size() >= 2)
               break;
           }
         c.erase("start");
